@@ -1,5 +1,6 @@
 import Rp2.Proofs.Final
 import Rp2.Proofs.Cover
+import Rp2.Proofs.PipelineEngine
 /-! # C02 — every disposal is fully covered by earlier lots; no lot is ever overspent -/
 namespace Rp2.C02
 open Rp2
@@ -22,6 +23,20 @@ theorem succeeds_iff_feasible (ctx : Ctx) (amount : Nat → Nat) (hbm : ∀ a b 
     (es : List Event) (hev : EvOK none es) (hpos : ∀ e ∈ es, ¬ e.earn → 0 < e.amount) :
     (∃ out, runS ctx amount 0 es = some out) ↔ Feasible ctx amount 0 es :=
   runS_some_iff ctx amount hbm es amount 0 0 0 none hev (by intro t s h; cases h) (fun _ => rfl) hpos (fun _ _ => rfl) (by simp [sumTo])
+
+/-- coverage / no over-spend / lots acquired at or before the disposal, for `computeFractions` (the executable pipeline) -/
+theorem pipeline_cover_and_no_overspend (sched : List (Int × Method)) (ins : List InTx) (outs : List OutTx) (intras : List IntraTx) (fs : List Fraction)
+    (hord : SheetOrder ins) (hy : SameInstantSameYear (taxableEvents ins outs intras))
+    (h : computeFractions sched ins outs intras = .ok fs) :
+    ∃ es out, engineEvents sched (taxableEvents ins outs intras) = some es ∧
+      fs = decodeFracs (sortByTs (·.ts.us) ins) (taxableEvents ins outs intras) out ∧
+      (∀ i, taken out i ≤ ((lotCtx sched (sortByTs (·.ts.us) ins)).L i).amount) ∧
+      (∀ j e, es[j]? = some e → total (out.filter (fun f => f.ev = j)) = e.amount) ∧
+      (∀ f ∈ out, ∃ e, es[f.ev]? = some e ∧ (e.earn → f = ⟨f.ev, none, e.amount⟩) ∧
+          (¬ e.earn → 0 < f.amt ∧ ∃ i, f.lot = some i ∧ i < (sortByTs (·.ts.us) ins).length ∧
+            ((lotCtx sched (sortByTs (·.ts.us) ins)).L i).ts ≤ e.ts)) := by
+  obtain ⟨es, out, h1, h2, h3, h4, h5, _⟩ := computeFractions_sound sched ins outs intras fs hord hy h
+  exact ⟨es, out, h1, h2, h3, h4, h5⟩
 
 /-- non-vacuity: selling exactly what was bought is feasible -/
 example : Feasible ⟨fun _ => ⟨0, 0, 0, 5⟩, fun _ => 1, fun _ => .fifo⟩ (fun _ => 5) 0 [⟨1, 0, 5, false⟩] := by
